@@ -137,11 +137,9 @@ func cmdProp(args []string) {
 				mine = append(mine, ob)
 			}
 		}
-		sd := filepath.Join(scratch, fmt.Sprintf("f%03d", len(funcs)))
-		os.MkdirAll(sd, 0o755)
-		e.Discharge(mine, sd, quickS, fullS, *workers)
 		all = append(all, mine...)
 	}
+	e.Discharge(all, scratch, quickS, fullS, *workers)
 	// lemmas of the packages involved
 	lemObs := e.lemmaObligations(*id, keys)
 	if len(lemObs) > 0 {
@@ -161,6 +159,20 @@ func cmdProp(args []string) {
 	bySolver := map[string]int{}
 	solverTime := 0.0
 	nOb, nDis, nCover, nCoverOK := 0, 0, 0, 0
+	exitSat, exitAll := map[string]int{}, map[string]int{}
+	for _, ob := range all {
+		if ob.Cover && strings.HasSuffix(ob.Name, "exit_reachable") {
+			exitAll[ob.Func]++
+			if ob.Result != "unsat" {
+				exitSat[ob.Func]++
+			}
+		}
+	}
+	for fn, n := range exitAll {
+		if n > 0 && exitSat[fn] == 0 {
+			engineErrs = append(engineErrs, "vacuity: no exit of "+fn+" is reachable under its preconditions and assumed contracts")
+		}
+	}
 	for _, ob := range all {
 		solverTime += ob.TimeS
 		if ob.Cover {
